@@ -1,9 +1,9 @@
 (* C16 - SM to SSC conversion keeps every property, chart, timing and note.  Statements only.
    "Source and templates unmodified, no shared mutable object" cannot be expressed over immutable
-   values: that clause, TimingData equality through the library's readers and the reload are the
-   correspondence check's claims (see DESIGN.md). *)
+   values: that clause and the reload of the serialization are the correspondence check's claims
+   (see DESIGN.md).  Timing identity is C16_timing_identical (blank simfile template). *)
 From Coq Require Import List ZArith NArith Bool.
-From SV Require Import Sx Str Omap Beat Simfile TimingSrc Convert Generated.Tables Proofs.ConvertFacts.
+From SV Require Import Sx Str Omap Beat Simfile TimingSrc Convert Generated.Tables Proofs.ConvertFacts Proofs.ConvertTiming.
 Import ListNotations.
 Open Scope Z_scope.
 
@@ -40,6 +40,20 @@ Proof.
   apply (proj1 (copy_get_all _ E1 sf _ out Hnd Eo)). exact G.
 Qed.
 Print Assumptions C16_timing_strings_kept.
+
+(* the timing data the library's reader extracts from the result (an SSC simfile, asked with any of its charts) is
+   the timing data it extracts from the source: the chart never becomes the timing source, the five timing
+   attributes read the same strings, and the optional ones the source lacks are empty in the blank template *)
+Theorem C16_timing_identical : forall sf charts tmpl_chart out cs,
+  NoDupKeys sf -> (forall c, List.In c charts -> NoDupKeys c) ->
+  sm_to_ssc sf charts None tmpl_chart = COk (out, cs) ->
+  has kBPMS sf = true -> has kSTOPS sf = true -> has kOFFSET sf = true -> has kVERSION sf = false ->
+  chart_has_timing (chart_tmpl_of Tables.blank_ssc_chart tmpl_chart) = false ->
+  (forall c key, List.In c charts -> List.In key Tables.chart_timing_properties -> get key c = None) ->
+  forall i c c', nth_error charts i = Some c -> nth_error cs i = Some c' ->
+    timing_data KSSC out CSSC c' = timing_data KSM sf CSM c.
+Proof. exact sm_to_ssc_timing. Qed.
+Print Assumptions C16_timing_identical.
 
 (* the blank templates supply no non-empty chart timing value: so a chart of the result never
    becomes its own timing source *)
